@@ -338,9 +338,28 @@ def library_guess_cases(run):
                         pf = fp["params_fitted"]
                         got = (pf["E"].value, pf["contact_point"].value,
                                pf["baseline"].value)
+                        # ... and the same with a contact-point-relative
+                        # interval: the fitted curve is the data
+                        i2 = curves.make_indentation(c2)
+                        with warnings.catch_warnings():
+                            warnings.simplefilter("ignore")
+                            i2.fit_model(model_key=mk, gcf_k=k, weight_cp=0,
+                                         preprocessing=["compute_tip_position"],
+                                         range_type="relative cp",
+                                         range_x=[-1.5e-6, 2e-6])
+                        seg_ = np.asarray(i2["segment"]) == 0
+                        fmax_ = float(np.max(np.abs(c2["force"])))
+                        dev_ = float(np.nanmax(np.abs(
+                            np.asarray(i2["fit"])[seg_]
+                            - np.asarray(c2["force"])[seg_]))) \
+                            if i2.fit_properties.get("success") else np.inf
                         if abs(got[1] - cp) > 1e-5 * span:
                             why = (f"contact point {got[1]!r}, the curve's "
                                    f"is {cp!r} (measured units)")
+                        elif dev_ > 1e-5 * fmax_:
+                            why = (f"relative interval: the fitted curve "
+                                   f"deviates from the (exact) data by "
+                                   f"{dev_ / fmax_:.2e} of the maximal force")
                         elif abs(got[0] / true["E"] - 1) > 1e-4:
                             why = (f"modulus {got[0]!r}, generated with "
                                    f"{true['E']!r} and k = {k}")
